@@ -52,7 +52,11 @@ def _after_alloc(e, P, res_struct, what):
     return blk
 
 
-def _run(res, tier, prog, what, build, skip_loops, bounds):
+F42_SRC = 'class A {\n  init() {\n' + ''.join(f'    self.f{i} = {i};\n' for i in range(300)) + '  }\n}\nprint(A().f299);\n'
+F42_REPLAY = dict(kind='lay', source=F42_SRC, expect_stdout='299\n', bad_re='panicked')
+
+
+def _run(res, tier, prog, what, build, skip_loops, bounds, panic_replay=None):
     P = get_program(prog)
     e = _engine(P, skip_loops)
 
@@ -64,6 +68,9 @@ def _run(res, tier, prog, what, build, skip_loops, bounds):
     for r in results:
         if r.kind in ('oob', 'unreachable', 'ub', 'diverge', 'depth'):
             res.fail(f'C20.K1:{what}:{r.kind}', f'{what}: path ends in {r.kind}: {str(r.info)[:200]}', {'path': str(r.info)})
+        if r.kind == 'panic' and panic_replay is not None:
+            res.fail(f'C20.K1:{what}: the allocation panics for some sizes', f'{what}: the allocation ends in a host panic for sizes a program can request: {str(r.info)[:200]}',
+                     {'path': str(r.info)}, replay=panic_replay)
     summarize_paths(res, e, results, lambda r: r.info if isinstance(r.info, dict) else None, key_prefix='C20.K1:', unwind_ok=False)
 
 
@@ -191,13 +198,14 @@ for _prog, _skip in _variants():
         sfx = ('' if prog == 'core' else '.nan') + ('' if skip else '.elems')
         maxlen = None if skip else 3
 
-        @obligation('C20.K1.instance' + sfx, 'C20', programs=(prog,))
+        @obligation('C20.K1.instance' + sfx, 'C20', programs=(prog,), also=('C16',))
         def k1_instance(res, tier):
             """an instance: <ObjRef<Class> as AllocateObj<Instance>>::alloc for a class with any number of fields, then size and drop"""
-            res.bounds = {'fields': 'any (the allocation itself refuses more than 256)' if skip else '<= 3 with the element loops of drop executed'}
+            res.bounds = {'fields': 'any below 2^16 (field indices are u16); no size may end in a host panic' if skip else '<= 3 with the element loops of drop executed'}
 
             def build(e, P):
                 n = z3.BitVec('n_fields', 64)
+                e.add_constraint(z3.ULT(n, 1 << 16))
                 if maxlen is not None:
                     e.add_constraint(z3.ULE(n, maxlen))
                 e.model(r'^(laythe_core::)?(object::)?(class::)?Class::fields$', lambda e_, a, c: n)
@@ -205,9 +213,15 @@ for _prog, _skip in _variants():
                 # &NIL_ARRAY[..n]: a slice of n nil values of the static array
                 import re as _re
 
+                def nil_array(e_, k):
+                    seq = e_.memo.get(('nil_array', k))
+                    if seq is None:
+                        seq = e_.memo[('nil_array', k)] = e_.fresh_seq('Value', NameBacking('nil_array'), bv(k, 64))
+                    return seq
+
                 def m_static(e_, a, c):
                     k = int(_re.search(r'; (\d+)\]', c.norm).group(1))
-                    return Ref(Cell(Opaque(f'[Value; {k}]', 'NIL_ARRAY')))
+                    return Ref(Cell(nil_array(e_, k)))
                 e.model(r'^const \{alloc\d+: &\[.*Value; \d+\]\}$', m_static)
 
                 def m_index(e_, a, c):
@@ -218,11 +232,10 @@ for _prog, _skip in _variants():
                     end = rng.f[0].get(e_)
                     if not e_.fork_bool(z3.ULE(end, k)):
                         raise PathEnd('panic', 'slice index out of range')
-                    seq = e_.fresh_seq('Value', NameBacking('nil_array'), bv(k, 64))
-                    return SliceRef(seq, bv(0, 64), end)
+                    return SliceRef(nil_array(e_, k), bv(0, 64), end)
                 e.model(r'^<\[.*; \d+\] as (std::ops::|core::ops::)?Index>::index$', m_index)
                 f = [x for x in P.fns if 'instance' in x.name and x.name.endswith('::alloc')]
                 assert len(f) == 1, [x.name for x in f]
                 return e.exec_fn(f[0], [Opaque('ObjRef<Class>', 'class')], 0, None)
-            _run(res, tier, prog, 'Instance', build, skip, res.bounds)
+            _run(res, tier, prog, 'Instance', build, skip, res.bounds, panic_replay=F42_REPLAY)
     _mk3()
